@@ -112,6 +112,9 @@ def equality(ctx, n):
                 'equal values mod p must compare equal and hash their canonical bytes: %r' % (t,), cls='eq:modp')
         v = (u + rng.randrange(1, P)) % P
         ctx.add('mt.eq', to32(a).hex(), to32(v).hex(), expect=['F', 'F', 'F'], cls='eq:modp')
+        for ch in ('T', 'F'):
+            e = to32(v if ch == 'T' else a).hex()
+            ctx.add('mt.csel', to32(a).hex(), to32(v).hex(), ch, expect=[e, e], cls='eq:modp')
     ctx.add('mt.consts', expect=[to32(9).hex(), to32(0).hex()], trivial=True)
     ctx.add('x.basepoint', expect=[to32(9).hex()], trivial=True)
     ctx.add('mt.zeroize', to32(9).hex(), expect=[to32(0).hex()], trivial=True)
